@@ -707,6 +707,58 @@ class Model:
                             if m and not m.is_abstract:
                                 cg[fn.qn].add(m.qn)
                                 sites[m.qn].append((fn, n))
+        # first-class functions and reflective dispatch (may-call over-approximation, for reachability only):
+        #   a function whose NAME is used as a value (stored in a table, passed as an argument) may be called by whoever can see that value;
+        #   operator.methodcaller('m', ...) / getattr(x, 'm') may call any method named m.
+        reflect = []           # (fn, param name or None, constant name or None)
+        for fn in self.funcs.values():
+            call_funcs = {id(n.func) for n in ast.walk(fn.node) if isinstance(n, ast.Call)}
+            for n in ast.walk(fn.node):
+                if isinstance(n, ast.Name) and isinstance(n.ctx, ast.Load) and id(n) not in call_funcs and n.id not in fn.params:
+                    t = self.resolve_name(fn.mod, n.id)
+                    if isinstance(t, Func):
+                        cg[fn.qn].add(t.qn)
+                        sites[t.qn].append((fn, n))
+                    gv = self.global_value(fn.mod, n.id) if not isinstance(t, (Func, Cls)) else None
+                    if gv is not None:
+                        for m_ in ast.walk(gv[1]):
+                            if isinstance(m_, ast.Name):
+                                t2 = self.resolve_name(gv[0], m_.id)
+                                if isinstance(t2, Func):
+                                    cg[fn.qn].add(t2.qn)
+                                    sites[t2.qn].append((fn, n))
+                                elif isinstance(t2, Cls) and t2.lookup('__init__') is not None:
+                                    cg[fn.qn].add(t2.lookup('__init__').qn)
+                if isinstance(n, ast.Call) and n.args:
+                    nm = self.ext_name(fn.mod, n.func)
+                    a0 = None
+                    if nm == 'operator.methodcaller':
+                        a0 = n.args[0]
+                    elif nm == 'builtins.getattr' and len(n.args) >= 2:
+                        a0 = n.args[1]
+                    if a0 is not None:
+                        if isinstance(a0, ast.Constant) and isinstance(a0.value, str):
+                            reflect.append((fn, None, a0.value, n))
+                        elif isinstance(a0, ast.Name) and a0.id in fn.params:
+                            reflect.append((fn, a0.id, None, n))
+        for fn, pname, const, n in reflect:
+            names = [const] if const else []
+            if pname:
+                for caller, cn in sites.get(fn.qn, []):
+                    if isinstance(cn, ast.Call):
+                        ps_ = fn.pos_params
+                        if fn.cls is not None and not fn.is_static and ps_ and ps_[0] in ('self', 'cls'):
+                            ps_ = ps_[1:]
+                        for i_, a in enumerate(cn.args):
+                            if i_ < len(ps_) and ps_[i_] == pname and isinstance(a, ast.Constant) and isinstance(a.value, str):
+                                names.append(a.value)
+                        for k in cn.keywords:
+                            if k.arg == pname and isinstance(k.value, ast.Constant) and isinstance(k.value.value, str):
+                                names.append(k.value.value)
+            for nm_ in names:
+                for t in self.cha(nm_):
+                    cg[fn.qn].add(t.qn)
+                    sites[t.qn].append((fn, n))
         self._cg, self._sites, self._cg_stats, self._unresolved = cg, sites, stats, unresolved
         return cg
 
